@@ -12,7 +12,8 @@ FS_DIRS = ["/data", "/data/sub", "/data/dir", "/work/sub", "/inc"]
 STRS = ["", "a", "ab", "abc", "AB", "Ab", " ab ", "x y", "Zed", "zz", "9", "hello", "abx", "aaaaaaaa", "aaaaaaaaa",
         "\u00e9t\u00e9", "stra\u00dfe", "\u0130x", "\t", "-_ab_-", ".ab.", "ab\n", "0", "true", "Z", "abcdefghabcdefgh",
         "a b", "<&>", "key: v", "'q'", "\"dq\"", "A1", "low", "HIGH", "dev", "Prod ", "one", "DEBUG", " info", "Production",
-        "development", "b", "c", "high", "two", "three", "prod", "warning"]
+        "development", "b", "c", "high", "two", "three", "prod", "warning",
+        "a\x85b", "l\u2028s", "p\u2029s", "nb\u00a0sp", "\ufeffbom", "del\x7f", "\U0001f600"]
 INTS = [-6, -5, -1, 0, 1, 2, 3, 4, 5, 6, 9, 10, 11, 13, 14, 15, 80, 100, 1023, 1024, 1025, 1029, 65535, 65536, 70000, 71024,
         2 ** 31, 2 ** 63 - 1, 2 ** 63, 10 ** 30, "5", " 5 ", "-5", "0x10", "5.0", "1e2", "", "ten", 5.0, 5.9, -0.0,
         float("nan"), float("inf"), True, "10", "1024", "3"]
@@ -37,7 +38,7 @@ SECRETS = ["s3cr3t!#1", "p\u00e4ss w\u00f6rd!", "hunter2!!", "x!y@z#", "tok!en~v
 CHALLENGES = ["pw!one", b"pw!two", "", "\u00fcn\u00ef!", "x!" * 20, b"\x00\xff!", "pw!one ", "Pw!one", 5, None, ["pw"], "user:pass", "root:toor!",
               ":"]
 PLAIN = [None, True, False, 0, 7, -3, 2 ** 40, 1.5, -0.0, "str", "", "x y", [], [1], [1, "two", None], {}, {"a": 1},
-         [[1], {"b": [2]}], {"k": {"n": [1.5, None]}}, "\u00e9t\u00e9", "<&>", "key: v"]
+         [[1], {"b": [2]}], {"k": {"n": [1.5, None]}}, "\u00e9t\u00e9", "<&>", "key: v", "a\x85b", ["l\u2028s"], {"nel\x85": 1}]
 WRONG = [None, True, 0, 7, -3, 2 ** 70, 1.5, float("inf"), float("nan"), "str", "", b"bytes", [], [1], (1, 2), {}, {"a": 1},
          [[1], {"b": [2]}], Opaque(1), {"method": "xor"}, ("t",), [None]]
 
